@@ -224,7 +224,7 @@ NEEDS_NONZERO = {"udiv", "sdiv", "__mod__"}
 
 def _opts(w, tier, **kw):
     o = {"timeout_ms": 20000 if tier == "quick" else 120000, "budget_s": 900 if tier == "quick" else 3000,
-         "max_paths": 60000, "max_depth": 6000, "gcd_max": (1 << w) - 1, "max_failures": 2}
+         "max_paths": 60000, "max_depth": 30000, "gcd_max": (1 << w) - 1, "max_failures": 2}
     o.update(kw)
     return o
 
@@ -418,10 +418,27 @@ def features(name, s, w):
         f"{name}_nwrap": z3.And(st != 0, z3.Or(z3.And(lb < msb, ub >= msb), z3.And(lb > ub, z3.Or(lb < msb, ub >= msb)))),
         f"{name}_np2": z3.And(st != 0, z3.Not(_pow2(st, st.size()))),  # stride is not a power of two
         f"{name}_neg": z3.And(st == 0, lb >= msb),                  # negative constant
-        f"{name}_zero": z3.And(st == 0, lb == 0),
-        f"{name}_has0": member(z3.BitVecVal(0, lb.size()), s, w),
-        f"{name}_gew": z3.Or(lb >= w, ub >= w, lb > ub),           # may hold a value >= the bit width
     }
+    if name == "b":
+        f["b_gew"] = z3.Or(lb >= w, ub >= w, lb > ub)               # may hold a value >= the bit width
+    return f
+
+
+def py_features(name, lb, ub, st, w):
+    msb = 1 << (w - 1)
+    f = set()
+    if st == 0:
+        f.add(f"{name}_single")
+    if lb > ub:
+        f.add(f"{name}_wrap")
+    if st != 0 and ((lb < msb <= ub) or (lb > ub and (lb < msb or ub >= msb))):
+        f.add(f"{name}_nwrap")
+    if st != 0 and st & (st - 1):
+        f.add(f"{name}_np2")
+    if st == 0 and lb >= msb:
+        f.add(f"{name}_neg")
+    if name == "b" and (lb >= w or ub >= w or lb > ub):
+        f.add("b_gew")
     return f
 
 
@@ -437,4 +454,207 @@ def apply_known(c, obligation, a, b, w):
         lits = [feats[n] for n in f["class"] if n in feats]
         if len(lits) != len(f["class"]):
             continue
-        c.known(f["finding"], z3.And(*lits) if lits else True)
+        if not lits:
+            raise Undecided("obligation generated for a transfer function listed as unsound on ordinary inputs")
+        c.known(f["finding"], z3.And(*lits))
+
+
+def replay_finding(f):
+    """Native replay of a listed known finding's witness."""
+    w = dict(f["witness"])
+    t = {"kwargs": {"op": w.pop("op"), "w": w.pop("w")}}
+    return replay_transfer(t, {"witness": w})
+
+
+# ---- C22: joins, meets, widening, queries ---------------------------------------------------------
+
+def ob_join(op, w, tier="quick", smart=True):
+    """gamma(a) U gamma(b) is contained in gamma(op(a, b)) for union / pseudo_join / widen / least_upper_bound."""
+    ns = load_si()
+    proxies.set_iw(3 * w + 6)
+    SIc = ns["StridedInterval"]
+
+    def body(c):
+        a = sym_si(ns, "a", w, allow_bottom=False)
+        b = sym_si(ns, "b", w, allow_bottom=False)
+        side = c.choose([True, True], "member-of")          # the member comes from a / from b
+        v = sym_member("x", a if side == 0 else b)
+        apply_known(c, f"si.{op}{'' if smart else '[plain]'}/gamma", a, b, w)
+        if op == "pseudo_join":
+            f = lambda: SIc.pseudo_join(a, b, smart)
+        elif op == "least_upper_bound":
+            f = lambda: SIc.least_upper_bound(a, b)
+        elif op == "least_upper_bound3":
+            d = sym_si(ns, "d", w)
+            f = lambda: SIc.least_upper_bound(a, b, d)
+        else:
+            f = lambda: getattr(a, op)(b)
+        ok, r = _call(c, op, f)
+        if not ok:
+            return "raised"
+        _result_check(c, op, r, v, w, ns)
+        return "ret"
+
+    return explore(body, _opts(w, tier))
+
+
+def ob_meet(op, w, tier="quick"):
+    """every common member of a and b is in intersection(a, b) (resp. in one of _multi_valued_intersection)."""
+    ns = load_si()
+    proxies.set_iw(3 * w + 6)
+    SIc = ns["StridedInterval"]
+
+    def body(c):
+        a = sym_si(ns, "a", w)
+        b = sym_si(ns, "b", w)
+        v = sym_member("x", a)
+        c.assume(member(v, b, w))
+        if not c.path_feasible():
+            raise paths.PathEnd()
+        apply_known(c, f"si.{op}/gamma", a, b, w)
+        ok, r = _call(c, op, getattr(a, op), b)
+        if not ok:
+            return "raised"
+        if op == "intersection":
+            _result_check(c, op, r, v, w, ns)
+        else:
+            c.check(op + "/gamma", z3.Or(*[member(v, p, w) for p in r if isinstance(p, SIc)]) if r else False,
+                    "a common member is in none of the returned intervals")
+        return "ret"
+
+    return explore(body, _opts(w, tier))
+
+
+def ob_query(q, w, tier="quick"):
+    """eval / min / max / cardinality / solution / complement agree with the member set."""
+    ns = load_si()
+    proxies.set_iw(3 * w + 6)
+    iw = proxies.get_iw()
+    M = 1 << w
+
+    def body(c):
+        a = sym_si(ns, "a", w)
+        apply_known(c, f"si.{q}/exact", a, None, w)
+        allv = [z3.BitVecVal(v, iw) for v in range(M)]
+        mem = [member(v, a, w) for v in allv]
+        card = z3.Sum([z3.If(m, z3.BitVecVal(1, iw), z3.BitVecVal(0, iw)) for m in mem])
+        if q.startswith("eval"):
+            n = int(q[4:])
+            signed = c.choose([True, True], "signed") == 1
+            ok, r = _call(c, q, lambda: a.eval(n, signed=signed))
+            if not ok:
+                return "raised"
+            vals = [_bv(x) & (M - 1) for x in r]     # signed results are negative numbers: compare as bit patterns
+            for i, x in enumerate(vals):
+                c.check(f"{q}/members-only", member(x, a, w), f"eval returned a non-member at position {i}")
+            if len(vals) > 1:
+                c.check(f"{q}/distinct", z3.Distinct(*vals), "eval returned duplicates")
+            c.check(f"{q}/count", z3.If(card < n, card, z3.BitVecVal(n, iw)) == len(vals),
+                    f"eval({n}) returned {len(vals)} values for a set of different size")
+            return f"ret{len(vals)}"
+        if q in ("min", "max"):
+            signed = c.choose([True, True], "signed") == 1
+            ok, r = _call(c, q, lambda: getattr(a, q)(signed=signed))
+            if not ok:
+                return "raised"
+            rz = _bv(r)
+            key = (lambda t: sx(t, w)) if signed else (lambda t: t)
+            c.watch["res"] = rz
+            c.check(f"{q}/member", member(rz & (M - 1), a, w), f"{q} is not a member")
+            if signed:
+                c.check(f"{q}/signed-range", z3.And(rz >= -(M // 2), rz < M // 2), "signed result not returned as a signed number")
+            cmpf = (lambda x, y: x <= y) if q == "min" else (lambda x, y: x >= y)
+            c.check(f"{q}/extremal", z3.And(*[z3.Implies(m, cmpf(key(rz), key(v))) for m, v in zip(mem, allv)]),
+                    f"{q} is not the extremal member in the requested signedness")
+            return "ret"
+        if q == "cardinality":
+            ok, r = _call(c, q, lambda: a.cardinality)
+            if not ok:
+                return "raised"
+            c.watch["res"] = _bv(r)
+            c.check("cardinality/exact", _bv(r) == card, "cardinality differs from the number of members")
+            return "ret"
+        if q == "solution":
+            v = SymInt.fresh("v", 0, M - 1)
+            ok, r = _call(c, q, lambda: a.solution(v))
+            if not ok:
+                return "raised"
+            rb = proxies.zbool(r) if isinstance(r, (bool, SymBool)) else None
+            if rb is None:
+                c.fail("solution/type", f"returned {type(r).__name__}")
+                return "ret"
+            c.check("solution/iff-member", rb == member(v.z, a, w), "solution(v) disagrees with membership")
+            return "ret"
+        if q == "complement":
+            ok, r = _call(c, q, lambda: a.complement)
+            if not ok:
+                return "raised"
+            v = SymInt.fresh("v", 0, M - 1)
+            c.assume(z3.Not(member(v.z, a, w)))
+            c.check("complement/contains-non-members", member(v.z, r, w), "a non-member of a is not in a.complement")
+            return "ret"
+        raise Undecided(q)
+
+    return explore(body, _opts(w, tier))
+
+
+def replay_c22(task, failure):
+    from claripy.backends.backend_vsa import StridedInterval as SI
+    kw = task["kwargs"]
+    w = kw["w"]
+    wit = failure["witness"]
+    mk = lambda p: SI(bits=w, stride=wit[p + "_stride"], lower_bound=wit[p + "_lb"], upper_bound=wit[p + "_ub"])
+    a = mk("a")
+    A = py_members(a)
+    if "op" in kw:
+        op = kw["op"]
+        b = mk("b")
+        B = py_members(b)
+        try:
+            if op == "pseudo_join":
+                r = SI.pseudo_join(a, b, kw.get("smart", True))
+            elif op.startswith("least_upper_bound"):
+                r = SI.least_upper_bound(a, b) if op == "least_upper_bound" else SI.least_upper_bound(a, b, mk("d"))
+            else:
+                r = getattr(a, op)(b)
+        except Exception as e:
+            return {"reproduced": True, "text": f"{op}({a},{b}) raised {type(e).__name__}: {e}"}
+        if op in ("intersection", "_multi_valued_intersection"):
+            want = A & B
+            got = py_members(r) if op == "intersection" else set().union(*[py_members(p) for p in r])
+        else:
+            want = A | B
+            if op == "least_upper_bound3":
+                want |= py_members(mk("d"))
+            got = py_members(r)
+        return {"reproduced": not want <= got, "text": f"{op}({a}, {b}) = {r}: members {sorted(got)} must contain {sorted(want)}"}
+    q = kw["q"]
+    out = []
+    try:
+        if q.startswith("eval"):
+            n = int(q[4:])
+            for signed in (False, True):
+                r = [x % (1 << w) for x in a.eval(n, signed=signed)]
+                if any(x not in A for x in r) or len(set(r)) != len(r) or len(r) != min(n, len(A)):
+                    out.append(f"eval({n},signed={signed})={r} members={sorted(A)}")
+        elif q in ("min", "max"):
+            for signed in (False, True):
+                r = getattr(a, q)(signed=signed)
+                key = (lambda v: _tosigned(v, w)) if signed else (lambda v: v)
+                best = (min if q == "min" else max)(A, key=key)
+                if r is None or r % (1 << w) != best or (signed and r != _tosigned(best, w)):
+                    out.append(f"{q}(signed={signed})={r}, expected {key(best)}; members={sorted(A)}")
+        elif q == "cardinality":
+            if a.cardinality != len(A):
+                out.append(f"cardinality={a.cardinality}, members={sorted(A)}")
+        elif q == "solution":
+            v = wit["v"]
+            if bool(a.solution(v)) != (v in A):
+                out.append(f"solution({v})={a.solution(v)}, members={sorted(A)}")
+        elif q == "complement":
+            C = py_members(a.complement)
+            if not (set(range(1 << w)) - A) <= C:
+                out.append(f"complement={a.complement} members={sorted(C)}; a={sorted(A)}")
+    except Exception as e:
+        out.append(f"raised {type(e).__name__}: {e}")
+    return {"reproduced": bool(out), "text": f"{a}: " + ("; ".join(out) or "query agrees with the member set")}
